@@ -6,6 +6,12 @@ import os
 
 ROOT = os.path.dirname(os.path.abspath(__file__))
 H = []
+# wall time / peak resident memory per harness as measured by the driver on this machine
+# (evidence files of a complete quick + thorough run); used for scheduling only
+try:
+    MEASURED = json.load(open(os.path.join(ROOT, "measured.json")))
+except OSError:
+    MEASURED = {}
 
 
 def add(name, config, primary, quick=(), thorough=(), timeout=1500, mem_gb=None, cost=60, **bounds):
@@ -19,6 +25,10 @@ def add(name, config, primary, quick=(), thorough=(), timeout=1500, mem_gb=None,
             mem_gb = 8
         else:
             mem_gb = 3
+    m = MEASURED.get(config + " " + name)
+    if m and m.get("maxrss_gb"):
+        mem_gb = max(2, int(m["maxrss_gb"] * 1.4 + 1.5))
+        cost = int(m["wall_s"])
     H.append({"name": name, "config": config, "primary": primary, "quick": sorted(set(quick)),
               "thorough": sorted(set(thorough) - set(quick)), "timeout": timeout, "mem_gb": mem_gb,
               "cost": cost, "bounds": bounds})
@@ -144,13 +154,18 @@ add(F + "join_tup2_r3", "std", "C16", quick=STD + ["C04"], thorough=["C03", "C20
 add(F + "tryjoin_tup2_r3", "std", "C16", quick=STD + ["C05"], thorough=["C03", "C20"], cost=160, children=2, rounds=3)
 add(F + "join_tup3_r3", "std", "C16", thorough=STD + ["C04", "C03", "C20"], cost=260, children=3, rounds=3)
 add(F + "join_tup2_r4", "std", "C16", thorough=STD + ["C04", "C03", "C20"], cost=300, children=2, rounds=4)
-add(FV + "join_vec2_r2_quiet", "std", "C16", quick=[], thorough=["C16", "C04", "C01", "C03"], cost=380, timeout=2400, mem_gb=40, children=2, rounds=2,
-    note="children do not wake from inside a poll")
+add(FV + "join_vec2_r2_quiet", "std", "C16", quick=[], thorough=["C16", "C04", "C01", "C03", "C20"], cost=450, timeout=2400, mem_gb=18, children=2, rounds=2,
+    note="children do not wake from inside a poll; unwind 4")
+add(FV + "tryjoin_vec2_r2_quiet", "std", "C16", quick=[], thorough=["C16", "C05", "C01", "C03", "C20"], cost=500, timeout=2400, mem_gb=18, children=2, rounds=2,
+    note="children do not wake from inside a poll; unwind 4")
+add(FV + "join_vec2_r3_quiet", "std", "C16", quick=[], thorough=["C16", "C04", "C01", "C03", "C20"], cost=960, timeout=3000, mem_gb=30, children=2, rounds=3,
+    note="children do not wake from inside a poll; unwind 4")
+add(SV + "merge_vec3_k1_r3", "std", "C16", thorough=["C16", "C08", "C01", "C03", "C20"], cost=850, timeout=3000, mem_gb=17, children=3, rounds=3)
 add(S + "merge_arr2_k1_r3", "std", "C16", quick=STD + ["C08"], thorough=["C03", "C20"], cost=300, mem_gb=13, children=2, rounds=3)
 add(S + "merge_tup2_k1_r3", "std", "C16", quick=STD + ["C08"], thorough=["C03", "C20"], cost=320, mem_gb=13, children=2, rounds=3)
 add(S + "zip_arr2_k1_r3", "std", "C16", quick=STD + ["C09"], thorough=["C03", "C20"], cost=330, mem_gb=13, children=2, rounds=3)
 add(S + "zip_tup2_k1_r3", "std", "C16", quick=STD + ["C09"], thorough=["C03", "C20"], cost=300, mem_gb=13, children=2, rounds=3)
-add(SV + "zip_vec2_k1_r3", "std", "C16", thorough=["C16", "C09", "C01"], cost=380, timeout=2400, mem_gb=40, children=2, rounds=3)
+add(SV + "zip_vec2_k1_r3", "std", "C16", thorough=["C16", "C09", "C01", "C03", "C20"], cost=600, timeout=2400, mem_gb=14, children=2, rounds=3)
 add(S + "merge_arr2_k2_r5", "std", "C16", thorough=STD + ["C08", "C03", "C20"], cost=830, timeout=3000, mem_gb=40, children=2, rounds=5)
 add(S + "merge_tup2_k2_r5", "std", "C16", thorough=STD + ["C08", "C03", "C20"], cost=830, timeout=3000, mem_gb=40, children=2, rounds=5)
 add(S + "zip_arr2_k2_r5", "std", "C16", thorough=STD + ["C09", "C03", "C20"], cost=660, timeout=3000, mem_gb=40, children=2, rounds=5)
@@ -185,10 +200,10 @@ for (n, cost, hist) in [("sgroup_micro2", 10, "insert, poll"), ("sgroup_keyed_mi
 # ------------------------------------------------------------------------------------------
 # concurrent-stream adapters (alloc)
 C = "fam_costream::"
-for (n, cost, q, mem) in [("co_take_l2", 240, 1, 10), ("co_take_l0", 10, 1, 3), ("co_take_l1", 40, 1, 4),
+for (n, cost, q, mem) in [("co_take_l2", 240, 0, 10), ("co_take_l0", 10, 1, 3), ("co_take_l1", 40, 1, 4),
                           ("co_enumerate_l2", 120, 1, 6), ("co_map_l2", 80, 1, 4),
-                          ("co_take_take_l2", 200, 1, 15), ("co_enumerate_take_l2", 340, 1, 22),
-                          ("co_map_take_l2", 300, 1, 16), ("co_take_enumerate_l2", 250, 0, 16), ("co_take_map_l2", 250, 0, 16),
+                          ("co_take_take_l2", 200, 0, 15), ("co_enumerate_take_l2", 340, 0, 22),
+                          ("co_map_take_l2", 300, 0, 16), ("co_take_enumerate_l2", 250, 0, 16), ("co_take_map_l2", 250, 0, 16),
                           ("co_limit_map_take_l2", 300, 0, 20), ("co_enumerate_map_take_l2", 400, 0, 24),
                           ("co_take_enumerate_map_l2", 400, 0, 24), ("co_limit_forwarding", 5, 1, 2),
                           ("co_take_l3", 600, 0, 24), ("co_enumerate_take_l3", 900, 0, 30)]:
